@@ -104,7 +104,7 @@ type Explorer struct {
 var X *Explorer
 
 func NewExplorer(timeoutMs int) *Explorer {
-	return &Explorer{FastOn: true, S: NewSolver(timeoutMs), ConcCap: 64, MaxSteps: 400000, DepthLimit: 2000,
+	return &Explorer{FastOn: true, S: NewSolver(timeoutMs), ConcCap: 300, MaxSteps: 400000, DepthLimit: 2000,
 		FuncsSeen: map[string]bool{}, KnownHit: map[string]bool{}, SolverTimeoutMs: timeoutMs}
 }
 
